@@ -315,6 +315,10 @@ def w_random(pid, tier, seed, job):
                 'FILE "t.bin" BINARY\n TRACK 01 AUDIO\n', 'FILE "t.bin" BINARY\n TRACK 99999999999999999999 AUDIO\n INDEX 01 99999999:99:99\n',
                 'FILE "t.bin" BINARY\n TRACK 01 MODE1/2352\n INDEX 01 00:00:00\n', "\n".join(lines[:2] + ["garbage"] * 50 + lines[2:]),
                 "\n".join(reversed(lines)), good * 200, 'FILE "t.bin" BINARY\n' + " TRACK 01 AUDIO\n INDEX 01 00:00:00\n" * 500]
+    # a track other than the first / last that has no (parseable) INDEX line
+    three = 'FILE "t.bin" BINARY\n TRACK 01 AUDIO\n  INDEX 01 00:00:00\n TRACK 02 AUDIO\n%s TRACK 03 AUDIO\n  INDEX 01 00:00:02\n'
+    variants += [three % "", three % "  INDEX 01 00:02\n", three % '  TITLE "x"\n', (three % "").replace("  INDEX 01 00:00:00\n", ""),
+                 (three % "  INDEX 01 00:00:01\n").replace("  INDEX 01 00:00:02\n", ""), (three % "") + " TRACK 04 AUDIO\n TRACK 05 AUDIO\n  INDEX 01 00:00:03\n"]
     # lines that make a backtracking regex work hard: unterminated quotes, long runs of one class, near-matches
     hdr = 'FILE "t.bin" BINARY\n TRACK 01 AUDIO\n'
     for body in ("a" * 60, "a b" * 40, "\\" * 50, 'a\\"' * 30, " " * 400, "x" * 5000):
